@@ -71,7 +71,7 @@ RefFx(v) == Fx(<<>>, [has |-> IF v = 1 THEN 1 ELSE 0, v |-> IF v = 1 THEN <<1, 2
                << <<<<9, 9>>, <<8>>>>, <<<<7, 7, 7>>>>, <<>> >>, << <<1>>, <<2, 3>>, <<>> >>, Pkg(IF v = 1 THEN 0 ELSE 1), 0)
 AuthFx(v) == Fx(<<>>, [has |-> 0, v |-> <<>>], [has |-> 0, v |-> 0], <<>>, <<>>, IF v = 1 THEN Pkg(0) ELSE NoPkg, 0)
 Ctx(svcs, priv) == [self |-> LE(5, 4), nextid |-> LE(70000, 4), t |-> LE(100, 4), svcs |-> svcs, xfers |-> <<>>, priv |-> priv,
-                    yield |-> <<>>, prov |-> <<>>, vk |-> <<0>>, aq |-> <<>>, kv |-> <<>>, machines |-> <<>>, nexp |-> 0, expd |-> <<>>, expoff |-> 0]
+                    yield |-> <<>>, prov |-> <<>>, vk |-> <<0>>, aq |-> <<>>, kv |-> <<>>, kvl |-> <<>>, machines |-> <<>>, nexp |-> 0, expd |-> <<>>, expoff |-> 0]
 \* accumulate contexts: rich / exactly at threshold (and 70042 taken) / huge / below threshold
 AccCtx(v) ==
   CASE v = 1 -> Ctx(<<SelfBase(Add(SelfThr, U(1000))), Other, Eject7(U(300)), Eject8, Eject9>>, Priv(5, 5, 5, 5, 5))
@@ -200,6 +200,18 @@ FootAlphabet == <<Wr(1024, 2, 16), Wr(1024, 2, 4), Wr(1024, 2, 0), Wr(1040, 3, 1
 \* the dictionary does not hold it (a state restored from key-values, as the importer / fuzz target builds it)
 KvCtx(v) == LET c == AccCtx(v) IN
   [c EXCEPT !.svcs[1] = [@ EXCEPT !.st = << <<K3, <<>>>> >>], !.kv = << <<LE(5, 4), K1, V1>> >>]
+\* the caller's request (H(1), 5) |-> [] lives only in the raw pool, and (H(7), 9) |-> [] sits in the dictionary as the NIL slice the
+\* codec leaves for an empty list (the generator marks it nil = 1; the driver's projection shows both as plain empty lists)
+KvlCtx(v) == LET c == AccCtx(v)
+                 full == [c.svcs[1] EXCEPT !.lk = InsertBy(@, Lk(7, 9, <<>>), LkLess)]
+                 counted == [full EXCEPT !.items = DerivedItems(full), !.oct = DerivedOctets(full), !.bal = Add(@, U(90))]
+             IN [c EXCEPT !.svcs[1] = [counted EXCEPT !.lk = [q \in 1..(Len(counted.lk) - 1) |->
+                                                              LET e == counted.lk[q + 1] IN IF e.h = H(7) THEN [h |-> e.h, z |-> e.z, slots |-> e.slots, nil |-> 1] ELSE e]],
+                          !.kvl = << <<LE(5, 4), H(1), LE(5, 4), <<>>>> >>]
+KvlSteps == <<Step(23, Regs6(HashAt(1), U(5), Z, Z, Z, Z), U(1000)), Step(23, Regs6(HashAt(7), U(9), Z, Z, Z, Z), U(1000)),
+              Step(22, Regs6(HashAt(1), U(5), Z, Z, Z, Z), U(1000)), Step(22, Regs6(HashAt(7), U(9), Z, Z, Z, Z), U(1000)),
+              Step(24, Regs6(HashAt(1), U(5), Z, Z, Z, Z), U(1000)), Step(24, Regs6(HashAt(7), U(9), Z, Z, Z, Z), U(1000)),
+              Step(23, Regs6(HashAt(0), U(3), Z, Z, Z, Z), U(1000)), Step(23, Regs6(HashAt(1), U(6), Z, Z, Z, Z), U(1000))>>
 KvSteps == <<Step(4, Regs6(A(32, 1024), U(2), A(32, 1100), U(16), Z, Z), U(1000)), Step(4, Regs6(A(32, 1024), U(2), A(35, 0), U(2), Z, Z), U(1000)),
              Step(4, Regs6(A(32, 1024), U(2), A(32, 1100), U(4), Z, Z), U(1000)), Step(4, Regs6(A(32, 1024), U(2), A(32, 1100), Z, Z, Z), U(1000)),
              Step(4, Regs6(A(32, 1024), U(2), A(32, 1100), U(5), Z, Z), U(1000)), Step(4, Regs6(A(32, 1024), U(2), A(32, 1100), Hi32, Z, Z), U(1000)),
